@@ -154,6 +154,43 @@ var catalog = []atomDef{
 	{"global", "read-iface-method", true, "var $PG string\nfunc $Pw(v string) { $PG = v }\ntype $PI interface{ get() string }\ntype $PT struct{}\nfunc ($PT) get() string { return $PG }\nfunc $Pr() string {\nvar i $PI = $PT{}\nreturn i.get()\n}\n", "$Pw($X)\n$Y := $Pr()", ""},
 	{"global", "read-deferred", true, "var $PG string\nfunc $Pw(v string) { $PG = v }\nfunc $Pr() (r string) {\ndefer func() { r = $PG }()\nreturn \"\"\n}\n", "$Pw($X)\n$Y := $Pr()", ""},
 
+	// ------------------------------------------------------------------ flows through callbacks that the source rewrites
+	// (internal/rewrite: sort.Sort/Stable/IsSorted -> calls of Len/Less/Swap; sort.Slice/SliceStable, (*sync.Once).Do -> call
+	// of the function argument) synthesise; judged with rewrites on AND off
+	{"rewrite", "sort.Sort-swap-elems", true, "type $PT struct{ xs []string }\nfunc (t $PT) Len() int { return len(t.xs) }\nfunc (t $PT) Less(i, j int) bool { return len(t.xs[i]) < len(t.xs[j]) }\nfunc (t $PT) Swap(i, j int) { t.xs[i], t.xs[j] = t.xs[j], t.xs[i] }\n", "$Pt := $PT{[]string{$X, \"\"}}\nsort.Sort($Pt)\n$Y := $Pt.xs[1]", ""},
+	{"rewrite", "sort.Slice-less", true, "", "var $Pl string\n$Ps := []string{\"b\", \"a\"}\nsort.Slice($Ps, func(i, j int) bool {\n$Pl = $X\nreturn $Ps[i] < $Ps[j]\n})\n$Y := $Pl", ""},
+	{"rewrite", "sort.SliceStable-less", true, "", "var $Pl string\n$Ps := []string{\"b\", \"a\"}\nsort.SliceStable($Ps, func(i, j int) bool {\n$Pl = $X\nreturn $Ps[i] < $Ps[j]\n})\n$Y := $Pl", ""},
+	{"rewrite", "sort.Slice-elems", true, "", "$Ps := []string{$X, \"\"}\nsort.Slice($Ps, func(i, j int) bool { return len($Ps[i]) < len($Ps[j]) })\n$Y := $Ps[1]", ""},
+	{"rewrite", "sync.Once.Do", true, "", "var $Pl string\nvar $Po sync.Once\n$Po.Do(func() { $Pl = $X })\n$Y := $Pl", ""},
+	{"rewrite", "sync.Once.Do-named", true, "var $PG string\nvar $PV string\nfunc $Pf() { $PV = $PG }\n", "$PG = $X\nvar $Po sync.Once\n$Po.Do($Pf)\n$Y := $PV", ""},
+	{"rewrite", "sync.Once.Do-ptr", true, "", "var $Pl string\n$Po := &sync.Once{}\n$Po.Do(func() { $Pl = $X })\n$Y := $Pl", ""},
+
+	// ------------------------------------------------------------------ taint AFTER insert: a clean slice/map/pointer/struct is stored
+	// into a container, its shared memory is tainted afterwards through the original variable, the value is read back
+	// through the container (the wraps ai-* sink the container itself)
+	{"afterinsert", "map-slice", true, "", "$Pr := make([]string, 1)\n$Pm := map[string][]string{}\n$Pm[\"k\"] = $Pr\n$Pr[0] = $X\n$Y := $Pm[\"k\"][0]", ""},
+	{"afterinsert", "map-map", true, "", "$Pr := map[string]string{}\n$Pm := map[string]map[string]string{}\n$Pm[\"k\"] = $Pr\n$Pr[\"i\"] = $X\n$Y := $Pm[\"k\"][\"i\"]", ""},
+	{"afterinsert", "map-ptr", true, "", "$Pr := new(string)\n$Pm := map[string]*string{}\n$Pm[\"k\"] = $Pr\n*$Pr = $X\n$Y := *$Pm[\"k\"]", ""},
+	{"afterinsert", "map-any-ptr", true, "", "$Pr := new(string)\n$Pm := map[string]any{}\n$Pm[\"k\"] = $Pr\n*$Pr = $X\n$Y := *($Pm[\"k\"].(*string))", ""},
+	{"afterinsert", "map-struct-slice", true, "type $PS struct{ xs []string }\n", "$Pr := make([]string, 1)\n$Pm := map[string]$PS{}\n$Pm[\"k\"] = $PS{$Pr}\n$Pr[0] = $X\n$Y := $Pm[\"k\"].xs[0]", ""},
+	{"afterinsert", "map-chan", true, "", "$Pr := make(chan string, 1)\n$Pm := map[string]chan string{}\n$Pm[\"k\"] = $Pr\n$Pr <- $X\n$Y := <-$Pm[\"k\"]", ""},
+	{"afterinsert", "slice-slice", true, "", "$Pr := make([]string, 1)\n$Pm := make([][]string, 1)\n$Pm[0] = $Pr\n$Pr[0] = $X\n$Y := $Pm[0][0]", ""},
+	{"afterinsert", "struct-slice", true, "type $PS struct{ xs []string }\n", "$Pr := make([]string, 1)\nvar $Pm $PS\n$Pm.xs = $Pr\n$Pr[0] = $X\n$Y := $Pm.xs[0]", ""},
+	{"afterinsert", "chan-slice", true, "", "$Pr := make([]string, 1)\n$Pm := make(chan []string, 1)\n$Pm <- $Pr\n$Pr[0] = $X\n$Y := (<-$Pm)[0]", ""},
+	{"afterinsert", "iface-slice", true, "", "$Pr := make([]string, 1)\nvar $Pm any = $Pr\n$Pr[0] = $X\n$Y := $Pm.([]string)[0]", ""},
+	{"afterinsert", "append-slice", true, "", "$Pr := make([]string, 1)\nvar $Pm [][]string\n$Pm = append($Pm, $Pr)\n$Pr[0] = $X\n$Y := $Pm[0][0]", ""},
+
+	{"rewrite", "sort.Sort-ptr-swap", true, "type $PT struct {\nxs []string\nv, log string\n}\nfunc (t *$PT) Len() int {\nreturn len(t.xs)\n}\nfunc (t *$PT) Less(i, j int) bool {\nreturn t.xs[i] < t.xs[j]\n}\nfunc (t *$PT) Swap(i, j int) {\nt.log = t.v\nt.xs[i], t.xs[j] = t.xs[j], t.xs[i]\n}\n", "$Pt := &$PT{xs: []string{\"b\", \"a\", \"c\"}, v: $X}\nsort.Sort($Pt)\n$Y := $Pt.log", ""},
+	{"rewrite", "sort.Sort-ptr-less", true, "type $PT struct {\nxs []string\nv, log string\n}\nfunc (t *$PT) Len() int {\nreturn len(t.xs)\n}\nfunc (t *$PT) Less(i, j int) bool {\nt.log = t.v\nreturn t.xs[i] < t.xs[j]\n}\nfunc (t *$PT) Swap(i, j int) {\nt.xs[i], t.xs[j] = t.xs[j], t.xs[i]\n}\n", "$Pt := &$PT{xs: []string{\"b\", \"a\", \"c\"}, v: $X}\nsort.Sort($Pt)\n$Y := $Pt.log", ""},
+	{"rewrite", "sort.Sort-ptr-len", true, "type $PT struct {\nxs []string\nv, log string\n}\nfunc (t *$PT) Len() int {\nt.log = t.v\nreturn len(t.xs)\n}\nfunc (t *$PT) Less(i, j int) bool {\nreturn t.xs[i] < t.xs[j]\n}\nfunc (t *$PT) Swap(i, j int) {\nt.xs[i], t.xs[j] = t.xs[j], t.xs[i]\n}\n", "$Pt := &$PT{xs: []string{\"b\", \"a\", \"c\"}, v: $X}\nsort.Sort($Pt)\n$Y := $Pt.log", ""},
+	{"rewrite", "sort.Stable-ptr-swap", true, "type $PT struct {\nxs []string\nv, log string\n}\nfunc (t *$PT) Len() int {\nreturn len(t.xs)\n}\nfunc (t *$PT) Less(i, j int) bool {\nreturn t.xs[i] < t.xs[j]\n}\nfunc (t *$PT) Swap(i, j int) {\nt.log = t.v\nt.xs[i], t.xs[j] = t.xs[j], t.xs[i]\n}\n", "$Pt := &$PT{xs: []string{\"b\", \"a\", \"c\"}, v: $X}\nsort.Stable($Pt)\n$Y := $Pt.log", ""},
+	{"rewrite", "sort.IsSorted-ptr-less", true, "type $PT struct {\nxs []string\nv, log string\n}\nfunc (t *$PT) Len() int {\nreturn len(t.xs)\n}\nfunc (t *$PT) Less(i, j int) bool {\nt.log = t.v\nreturn t.xs[i] < t.xs[j]\n}\nfunc (t *$PT) Swap(i, j int) {\nt.xs[i], t.xs[j] = t.xs[j], t.xs[i]\n}\n", "$Pt := &$PT{xs: []string{\"b\", \"a\", \"c\"}, v: $X}\n_ = sort.IsSorted($Pt)\n$Y := $Pt.log", ""},
+	{"rewrite", "direct-ptr-swap", true, "type $PT struct {\nxs []string\nv, log string\n}\nfunc (t *$PT) Len() int {\nreturn len(t.xs)\n}\nfunc (t *$PT) Less(i, j int) bool {\nreturn t.xs[i] < t.xs[j]\n}\nfunc (t *$PT) Swap(i, j int) {\nt.log = t.v\nt.xs[i], t.xs[j] = t.xs[j], t.xs[i]\n}\n", "$Pt := &$PT{xs: []string{\"b\", \"a\", \"c\"}, v: $X}\n$Pt.Swap(0, 1)\n$Y := $Pt.log", ""},
+	{"field", "value-recv-writes-through-ptr-field", true, "type $PT struct {\nlog *string\nv string\n}\nfunc (t $PT) put() { *t.log = t.v }\n", "var $Pl string\n$PT{&$Pl, $X}.put()\n$Y := $Pl", ""},
+	// a parameter that receives the taint only through a SELF-recursive call
+	{"rec", "acc-via-self-call", true, "func $Pf(acc, x string, n int) string {\nif n <= 0 {\nreturn acc\n}\nreturn $Pf(x, x, n-1)\n}\n", "$Y := $Pf(\"\", $X, 2)", ""},
+	{"rec", "acc-via-self-call-concat", true, "func $Pf(acc, x string, n int) string {\nif n <= 0 {\nreturn acc\n}\nreturn $Pf(acc+x, x, n-1)\n}\n", "$Y := $Pf(\"\", $X, 2)", ""},
+
 	// ------------------------------------------------------------------ maps
 	{"map", "update-lookup", true, "", "$Pm := map[string]string{}\n$Pm[\"k\"] = $X\n$Y := $Pm[\"k\"]", ""},
 	{"map", "literal", true, "", "$Pm := map[string]string{\"k\": $X}\n$Y := $Pm[\"k\"]", ""},
@@ -466,6 +503,22 @@ var wraps = []wrapDef{
 	{"second-arg", "", "$S(\"tag\", $X)", "func $S(tag string, x any) { report($N, x) }\n", false},
 	{"stored-then-sink", "", "$Pv := []string{\"\"}\n$Pv[0] = $X\n$S($Pv)", "", true},
 	{"ptr-written-after", "", "$Pv := new(string)\n$Pq := $Pv\n*$Pq = $X\n$S($Pv)", "", true},
+	// taint AFTER insert, container sunk: a clean value is stored into the container, tainted afterwards through the original alias
+	{"ai-map-slice", "", "$Pr := make([]string, 1)\n$Pm := map[string][]string{}\n$Pm[\"k\"] = $Pr\n$Pr[0] = $X\n$S($Pm)", "", true},
+	{"ai-map-map", "", "$Pr := map[string]string{}\n$Pm := map[string]map[string]string{\"k\": $Pr}\n$Pr[\"i\"] = $X\n$S($Pm)", "", true},
+	{"ai-map-ptr", "", "$Pr := new(string)\n$Pm := map[string]*string{}\n$Pm[\"k\"] = $Pr\n*$Pr = $X\n$S($Pm)", "", true},
+	{"ai-map-any-ptr", "", "$Pr := new(string)\n$Pm := map[string]any{}\n$Pm[\"k\"] = $Pr\n*$Pr = $X\n$S($Pm)", "", true},
+	{"ai-map-any-slice", "", "$Pr := make([]string, 1)\n$Pm := map[string]any{}\n$Pm[\"k\"] = $Pr\n$Pr[0] = $X\n$S($Pm)", "", true},
+	{"ai-map-struct-slice", "type $PS struct{ xs []string }\n", "$Pr := make([]string, 1)\n$Pm := map[string]$PS{}\n$Pm[\"k\"] = $PS{$Pr}\n$Pr[0] = $X\n$S($Pm)", "", true},
+	{"ai-slice-slice", "", "$Pr := make([]string, 1)\n$Pm := make([][]string, 1)\n$Pm[0] = $Pr\n$Pr[0] = $X\n$S($Pm)", "", true},
+	{"ai-struct-slice", "type $PS struct{ xs []string }\n", "$Pr := make([]string, 1)\nvar $Pm $PS\n$Pm.xs = $Pr\n$Pr[0] = $X\n$S($Pm)", "", true},
+	{"ai-chan-slice", "", "$Pr := make([]string, 1)\n$Pm := make(chan []string, 1)\n$Pm <- $Pr\n$Pr[0] = $X\n$S(<-$Pm)", "", true},
+	{"ai-iface-slice", "", "$Pr := make([]string, 1)\nvar $Pm any = $Pr\n$Pr[0] = $X\n$S($Pm)", "", true},
+	{"ai-ptr-struct-map", "type $PS struct{ m map[string][]string }\n", "$Pr := make([]string, 1)\n$Pm := &$PS{m: map[string][]string{}}\n$Pm.m[\"k\"] = $Pr\n$Pr[0] = $X\n$S($Pm)", "", true},
+	// the sink is reached inside a self-recursive function whose parameter acc is tainted only by the recursive call
+	{"rec-acc-self-call", "func $PF(acc, x string, n int) {\nif n <= 0 {\n$S(acc)\nreturn\n}\n$PF(x, x, n-1)\n}\n", "$PF(\"\", $X, 2)", "", false},
+	{"rec-acc-self-call-after", "func $PF(acc, x string, n int) {\nif n > 0 {\n$PF(x, x, n-1)\n}\n$S(acc)\n}\n", "$PF(\"\", $X, 2)", "", false},
+	{"rec-acc-self-call-plain", "func $PF(acc, x string, n int) {\nif n > 0 {\n$PF(x, x, n-1)\nreturn\n}\n$S(acc)\n}\n", "$PF(\"clean\", $X, 1)", "", false},
 	// builder trav's finding param-reached-from-inside-first: the sink reads *p inside F before F overwrites *p with s; p is
 	// tainted through a longer path than s, so param p is first reached from inside F (edge s -> p) and is not expanded again
 	{"param-inside-first", "func $Pi(v string) string { return v }\nfunc $PF(s string, p *string) {\n$S(*p)\n*p = s\n}\n", "$Pv := $Pi($Pi($X))\n$PF($X, &$Pv)", "", false},
